@@ -19,7 +19,7 @@ import solver  # noqa: E402
 import symex  # noqa: E402
 from symex import Adt, Scalar, Sym, Tokens, conj, disj, neg  # noqa: E402
 
-PROPS = ("C07", "C04", "C01", "C13", "C05")
+PROPS = ("C07", "C04", "C01", "C13", "C05", "C11", "C06", "C14", "C17")
 
 _LOADED = {}
 
@@ -297,20 +297,29 @@ def run(pid, tier, seed):
     log = {}
     log_dir = os.path.join(common.WORK_DIR, pid, "mirx-" + tier)
     os.makedirs(log_dir, exist_ok=True)
-    say(f"[{pid}] E2-X: dumping whole-crate MIR of incan from {common.REPO}")
-    P, R = load(log)
-    obs = build(pid, P, R, tier, log_dir)
-    import emit_props
-    import lower_props
-    import plan_props
-    import tc_props
-    if pid in ("C07", "C04", "C13"):
-        obs += plan_props.build(pid, P, R, tier, log_dir)
-    obs += tc_props.build(pid, P, R, tier, log_dir)
-    obs += emit_props.build(pid, P, R, tier, log_dir)
-    obs += lower_props.build(pid, P, R, tier, log_dir)
     import parse_props
-    obs += parse_props.build(pid, tier, log_dir)
+    if pid == "C11":
+        # only the parser (incan_syntax) is needed
+        say(f"[{pid}] E2-X: dumping the MIR of incan_syntax from {common.REPO}")
+        obs = parse_props.build(pid, tier, log_dir)
+    else:
+        say(f"[{pid}] E2-X: dumping whole-crate MIR of incan from {common.REPO}")
+        P, R = load(log)
+        obs = build(pid, P, R, tier, log_dir)
+        import emit_props
+        import lower_props
+        import plan_props
+        import tc_props
+        if pid in ("C07", "C04", "C13"):
+            obs += plan_props.build(pid, P, R, tier, log_dir)
+        obs += tc_props.build(pid, P, R, tier, log_dir)
+        obs += emit_props.build(pid, P, R, tier, log_dir)
+        obs += lower_props.build(pid, P, R, tier, log_dir)
+        obs += parse_props.build(pid, tier, log_dir)
+        import stmt_props
+        obs += stmt_props.build(pid, P, R, tier, log_dir)
+        import imp_props
+        obs += imp_props.build(pid, P, R, tier, log_dir)
     results = []
     for ob in obs:
         t0 = time.time()
